@@ -13,7 +13,7 @@ def NOT_REPRODUCED(msg=''):
     print('not reproduced', msg); sys.exit(0)
 
 
-p = Path(QuadraticBezier(0j, 0j, 100000j), Line(100001j, (1+100001j)))
+p = Path(QuadraticBezier(0j, 0j, 0j), QuadraticBezier(0j, (-7.450580596923828e-09+0j), 0j))
 opts = dict(useSandT=True, use_closed_attrib=False, rel=False)
 d = p.d(**opts)
 try:
